@@ -29,9 +29,13 @@ Fixpoint pages_all (ok : memory -> Z -> bool) (m : memory) (pg : Z) (n : nat) : 
   end.
 
 (* N_{a...+z} is inside 2^32 and [ok] (readable / writable) at every address *)
+(* (a range of n pages cannot be all readable when fewer than n pages are mapped: tested first, so
+   that a range of a million pages over an almost empty RAM costs nothing) *)
 Definition range_ok (ok : memory -> Z -> bool) (m : memory) (a z : Z) : bool :=
   if z <=? 0 then true
-  else (a + z <=? ADDR) && pages_all ok m (a / PAGE) (Z.to_nat ((a + z - 1) / PAGE - a / PAGE + 1)).
+  else
+    let n := (a + z - 1) / PAGE - a / PAGE + 1 in
+    (a + z <=? ADDR) && (n <=? Z.of_nat (length (m_pages m))) && pages_all ok m (a / PAGE) (Z.to_nat n).
 
 Definition rd_range (m : memory) (a : Z) (n : nat) : list Z :=
   map (fun i => rd_byte m (a + Z.of_nat i)) (seq 0 n).
@@ -85,12 +89,21 @@ Fixpoint run_pow (k : nat) (p : prog) (pc : Z) (s : st) : exit * Z * st :=
     end
   end.
 
-Definition inner_run (p : prog) (pc : Z) (s : st) : option (exit * Z * st) :=
+Definition inner_run_log (p : prog) (pc : Z) (s : st) : option (exit * Z * st) :=
   let '(e, pc', s') := run_pow (S (Z.to_nat (Z.log2 (gas s)))) p pc s in
   match e with
   | Continue => None
   | _ => Some (e, pc', s')
   end.
+
+(* a counter at or past the end of the code (any natural number may be given to `machine`) meets the
+   implicit trap: written out so that the counter is never used as a list index *)
+Definition past_end_step (pc : Z) (s : st) : exit * Z * st :=
+  if gas s <? 1 then (OutOfGas, pc, s)
+  else (Panic, 0, {| regs := regs s; gas := gas s - 1; mem := mem s |}).
+
+Definition inner_run (p : prog) (pc : Z) (s : st) : option (exit * Z * st) :=
+  if code_len p <=? pc then Some (past_end_step pc s) else inner_run_log p pc s.
 
 (* ---- pages ---- *)
 Definition acc_of_mode (r : Z) : access :=
